@@ -48,6 +48,7 @@ class SimEnv(object):
         self.advanced = 0.0
         self.clock_reads = 0
         self.sleeps = 0
+        self.pid = 4242
 
     # ---- entropy
     def _bytes(self, n):
@@ -114,7 +115,7 @@ class SimEnv(object):
                 inside = sys._getframe(1).f_code.co_filename.startswith(aot)
             except Exception:
                 inside = False
-            return 4242 if inside else realpid()
+            return env.pid if inside else realpid()
         os.getpid = getpid
 
     @staticmethod
@@ -197,6 +198,9 @@ def apply_noise(op, env, res=None):
                                suppress=bool(op.get("s", False)))
     elif k == "numba_threads":
         set_numba_threads(int(op["v"]))
+    elif k == "fork":
+        # from here on the program runs in a forked child: same objects, another process id
+        env.pid += 1 + int(op.get("v", 0)) % 7
     elif k == "np_default_rng":
         # somebody else uses the new-style API with the same integer seed
         numpy.random.default_rng(int(op["v"])).normal(size=int(op.get("n", 4)))
